@@ -19,9 +19,27 @@ FIELDS = {
     'VInner': [('a', 'int'), ('b', 'long')],
     'VOuter': [('c', 'char'), ('l', 'long'), ('ul', 'ulong'), ('i', 'int'), ('ll', 'llong'), ('arr', 'long3'), ('p', 'ptr'), ('in', 'VInner'), ('s', 'short')],
     'VMisc': [('col', 'enum'), ('b', 'bool'), ('uc', 'uchar'), ('d', 'double'), ('fl', 'float'), ('pa', 'ptr2'), ('us', 'ushort')],
+    'VFn': [('cb', 'fnptr'), ('tag', 'int'), ('tab', 'fnptr2')],
     'VRev': [('s', 'short'), ('in', 'VInner'), ('p', 'ptr'), ('arr', 'long3'), ('ll', 'llong'), ('i', 'int'), ('ul', 'ulong'), ('l', 'long'), ('c', 'char')],
 }
-GUEST_C = {'enum': 'uint32_t', 'bool': '_Bool', 'uchar': 'uint8_t', 'ushort': 'uint16_t', 'double': 'double', 'float': 'float', 'char': 'int8_t', 'short': 'int16_t', 'int': 'int32_t', 'long': 'int32_t', 'ulong': 'uint32_t', 'llong': 'int64_t', 'ptr': 'uint32_t'}
+GUEST_C = {'enum': 'uint32_t', 'bool': '_Bool', 'uchar': 'uint8_t', 'ushort': 'uint16_t', 'double': 'double', 'float': 'float', 'char': 'int8_t', 'short': 'int16_t', 'int': 'int32_t', 'long': 'int32_t', 'ulong': 'uint32_t', 'llong': 'int64_t', 'ptr': 'uint32_t', 'fnptr': 'uint32_t'}
+
+
+# function-pointer fields: the backend's function-pointer representation (A_backend, function-pointer form: an arbitrary value
+# g_fn_repr / host entry g_fn_host), never the data-pointer swizzle; null stays null
+FN_TO_GUEST = '__CPROVER_ensures(((uintptr_t)%s == 0 ==> %s == 0) && ((uintptr_t)%s != 0 ==> %s == g_fn_repr))'
+FN_TO_APP = '__CPROVER_ensures((%s == 0 ==> (uintptr_t)%s == 0) && (%s != 0 ==> (uintptr_t)%s == g_fn_host))'
+FN_GHOST = ' unsigned int g_fn_repr; unsigned long g_fn_host;\n'
+FN_H = '  unsigned int in_fn_repr; g_fn_repr = in_fn_repr; unsigned long in_fn_host; g_fn_host = in_fn_host;\n'
+_fnp = lambda name: (lambda fn, rec: fn.get('name') == name and 'IPF' in fn.get('mangledName', ''))
+FN_LEAVES = [
+    ('vsbx.impl_get_sandboxed_pointer_no_ctx<function pointer>(A_backend)', _fnp('impl_get_sandboxed_pointer_no_ctx'),
+     '__CPROVER_requires($0 != 0)\n__CPROVER_ensures($ret == g_fn_repr)\n__CPROVER_assigns()'),
+    ('vsbx.impl_get_unsandboxed_pointer_no_ctx<function pointer>(A_backend)', _fnp('impl_get_unsandboxed_pointer_no_ctx'),
+     '__CPROVER_requires($0 != 0)\n__CPROVER_ensures((unsigned long)$ret == g_fn_host)\n__CPROVER_assigns()'),
+    ('vsbx.impl_get_sandboxed_pointer<function pointer>(A_backend)', _fnp('impl_get_sandboxed_pointer'),
+     '__CPROVER_requires($0 != 0)\n__CPROVER_ensures($ret == g_fn_repr)\n__CPROVER_assigns()'),
+]
 
 
 def guest_struct_decl(S):
@@ -29,7 +47,7 @@ def guest_struct_decl(S):
     for f, k in FIELDS[S]:
         if k == 'long3':
             out += 'int32_t %s[3]; ' % f
-        elif k == 'ptr2':
+        elif k in ('ptr2', 'fnptr2'):
             out += 'uint32_t %s[2]; ' % f
         elif k in FIELDS:
             out += 'struct GUEST_%s %s; ' % (k, f)
@@ -52,9 +70,9 @@ def leaves_of(path, S, fn):
         if k == 'long3':
             for j in range(3):
                 out.append(fn(path + [f], 'long', j))
-        elif k == 'ptr2':
+        elif k in ('ptr2', 'fnptr2'):
             for j in range(2):
-                out.append(fn(path + [f], 'ptr', j))
+                out.append(fn(path + [f], k[:-1], j))
         elif k in FIELDS:
             out += leaves_of(path + [f], k, fn)
         else:
@@ -121,15 +139,17 @@ def store_inst(S, tier):
         tag = 'field_%s%s' % ('_'.join(p), '' if j is None else '_%d' % j)
         if k == 'ptr':
             return (tag, '__CPROVER_ensures(((uintptr_t)%s == 0 ==> %s == 0) && (((uintptr_t)%s != 0 && V_IN(%s, (uintptr_t)%s)) ==> MI(%s) == MI((uintptr_t)%s) - MI(V_BASE[%s])))' % (src, dst, src, W, src, dst, src, W))
+        if k == 'fnptr':
+            return (tag, FN_TO_GUEST % (src, dst, src, dst))
         return (tag, '__CPROVER_ensures(%s)' % eqv(dst, src, k))
     cl += leaves_of([], S, post)
     cl.append(('returns_self', '__CPROVER_ensures((void *)$ret == (void *)$this)'))
     cl.append(('frame_exactly_the_guest_image', '__CPROVER_assigns(__CPROVER_object_whole($this))'))
-    h = REGIONS + ('  struct %s cell; __CPROVER_assume(V_WHICH((uintptr_t)&cell) != -1); g_expect_example = (uintptr_t)&cell;\n'
+    h = REGIONS + FN_H + ('  struct %s cell; __CPROVER_assume(V_WHICH((uintptr_t)&cell) != -1); g_expect_example = (uintptr_t)&cell;\n'
                    '  struct %s v;\n' % (TV, TT)) + layout_asserts(S) + '  $ROOT(&cell, &v);\n'
     return Inst('c08_store_%s' % S, 'tainted_volatile<%s, vsbx>& c, tainted<%s, vsbx>& v' % (S, S), 'c = v;', cl, h,
-                leaves=['dynamic_check', 'vsbx.impl_get_sandboxed_pointer_no_ctx', 'find_sandbox_from_example'], prop=PROP, root_name='operator=', tier=tier,
-                pre=PRE_GHOST + spec_decls(S), pre_defines=OBJVIEW, timeout=300, object_bits=12,
+                leaves=['dynamic_check'] + FN_LEAVES + ['vsbx.impl_get_sandboxed_pointer_no_ctx', 'find_sandbox_from_example'], prop=PROP, root_name='operator=', tier=tier,
+                pre=PRE_GHOST + FN_GHOST + spec_decls(S), pre_defines=OBJVIEW, timeout=300, object_bits=12,
                 note='copy of a tainted %s into its guest image: every field (arrays unrolled, nested struct descended) + layout assertions' % S)
 
 
@@ -146,15 +166,17 @@ def load_inst(S, tier):
         tag = 'field_%s%s' % ('_'.join(p), '' if j is None else '_%d' % j)
         if k == 'ptr':
             return (tag, '__CPROVER_ensures((%s == 0 ==> (uintptr_t)%s == 0) && ((%s != 0 && (uintptr_t)%s < V_SIZE[%s]) ==> (uintptr_t)%s == V_BASE[%s] + (uintptr_t)%s))' % (src, dst, src, src, W, dst, W, src))
+        if k == 'fnptr':
+            return (tag, FN_TO_APP % (src, dst, src, dst))
         return (tag, '__CPROVER_ensures(%s)' % eqv(dst, src, k))
     cl += leaves_of([], S, post)
     cl.append(('frame', '__CPROVER_assigns()'))
-    h = REGIONS + ('  struct %s cell; __CPROVER_assume(V_WHICH((uintptr_t)&cell) != -1); g_expect_example = (uintptr_t)&cell; g_noabort = 0;\n'
+    h = REGIONS + FN_H + ('  struct %s cell; __CPROVER_assume(V_WHICH((uintptr_t)&cell) != -1); g_expect_example = (uintptr_t)&cell; g_noabort = 0;\n'
                    '  struct %s r = $ROOT(&cell);\n' % (TV, TT))
     pick = lambda tu, fn: find_func(tu, 'tainted', 'rlbox::tainted<rlbox::%s, rlbox::vsbx>' % S, lambda f, rn: 'tainted_volatile' in f['type']['qualType'])
     return Inst('c08_load_%s' % S, 'tainted_volatile<%s, vsbx>& c' % S, 'tainted<%s, vsbx> t = c;' % S, cl, h,
-                leaves=['dynamic_check', 'vsbx.impl_get_unsandboxed_pointer_no_ctx', 'find_sandbox_from_example'], prop=PROP, root_name='tainted', tier=tier,
-                pre=PRE_GHOST + spec_decls(S), pre_defines=OBJVIEW, root_pick=pick, timeout=300, object_bits=12)
+                leaves=['dynamic_check'] + FN_LEAVES + ['vsbx.impl_get_unsandboxed_pointer_no_ctx', 'find_sandbox_from_example'], prop=PROP, root_name='tainted', tier=tier,
+                pre=PRE_GHOST + FN_GHOST + spec_decls(S), pre_defines=OBJVIEW, root_pick=pick, timeout=300, object_bits=12)
 
 
 def unverified_inst(S, tier):
@@ -172,15 +194,17 @@ def unverified_inst(S, tier):
         tag = 'field_%s%s' % ('_'.join(p), '' if j is None else '_%d' % j)
         if k == 'ptr':
             return (tag, '__CPROVER_ensures((%s == 0 ==> (uintptr_t)%s == 0) && ((%s != 0 && (uintptr_t)%s < V_SIZE[%s]) ==> (uintptr_t)%s == V_BASE[%s] + (uintptr_t)%s))' % (src, dst, src, src, W, dst, W, src))
+        if k == 'fnptr':
+            return (tag, FN_TO_APP % (src, dst, src, dst))
         return (tag, '__CPROVER_ensures(%s)' % eqv(dst, src, k))
     cl += leaves_of([], S, post)
     cl.append(('frame', '__CPROVER_assigns()'))
-    h = REGIONS + ('  struct %s cell; __CPROVER_assume(V_WHICH((uintptr_t)&cell) != -1); g_expect_example = (uintptr_t)&cell; g_noabort = 0;\n'
+    h = REGIONS + FN_H + ('  struct %s cell; __CPROVER_assume(V_WHICH((uintptr_t)&cell) != -1); g_expect_example = (uintptr_t)&cell; g_noabort = 0;\n'
                    '  struct %s r = $ROOT(&cell);\n' % (TV, PS))
     pick = lambda tu, fn: find_func(tu, 'get_raw_value', 'rlbox::tainted_volatile<rlbox::%s, rlbox::vsbx>' % S)
     return Inst('c08_unverified_%s' % S, 'tainted_volatile<%s, vsbx>& c' % S, 'c.UNSAFE_unverified();', cl, h,
-                leaves=['dynamic_check', 'vsbx.impl_get_unsandboxed_pointer_no_ctx', 'find_sandbox_from_example'], prop=PROP, root_name='get_raw_value', tier=tier,
-                pre=PRE_GHOST + spec_decls(S), pre_defines=OBJVIEW, root_pick=pick, timeout=300, object_bits=12)
+                leaves=['dynamic_check'] + FN_LEAVES + ['vsbx.impl_get_unsandboxed_pointer_no_ctx', 'find_sandbox_from_example'], prop=PROP, root_name='get_raw_value', tier=tier,
+                pre=PRE_GHOST + FN_GHOST + spec_decls(S), pre_defines=OBJVIEW, root_pick=pick, timeout=300, object_bits=12)
 
 
 def byvalue_inst(S, tier):
@@ -197,16 +221,19 @@ def byvalue_inst(S, tier):
         tag = 'field_%s%s' % ('_'.join(p), '' if j is None else '_%d' % j)
         if k == 'ptr':
             return (tag, '__CPROVER_ensures(((uintptr_t)%s == 0 ==> %s == 0) && (((uintptr_t)%s != 0 && V_IN(%s, (uintptr_t)%s)) ==> MI(%s) == MI((uintptr_t)%s) - MI(V_BASE[%s])))' % (src, dst, src, SL, src, dst, src, SL))
+        if k == 'fnptr':
+            return (tag, FN_TO_GUEST % (src, dst, src, dst))
         return (tag, '__CPROVER_ensures(%s)' % eqv(dst, src, k))
     cl += leaves_of([], S, post)
     cl.append(('frame', '__CPROVER_assigns()'))
-    h = REGIONS + SB_DECL + '  struct %s v;\n  struct %s r = $ROOT(&v, &sb);\n' % (TT, SBX)
+    h = REGIONS + FN_H + SB_DECL + '  struct %s v;\n  struct %s r = $ROOT(&v, &sb);\n' % (TT, SBX)
     return Inst('c08_byvalue_to_sandbox_%s' % S, 'tainted<%s, vsbx>& v, rlbox_sandbox<vsbx>& s' % S, 'v.UNSAFE_sandboxed(s);', cl, h,
-                leaves=['dynamic_check', 'vsbx.impl_get_sandboxed_pointer'], prop=PROP, root_name='UNSAFE_sandboxed', tier=tier, pre=PRE_GHOST + spec_decls(S), timeout=300, object_bits=12)
+                leaves=['dynamic_check'] + FN_LEAVES + ['vsbx.impl_get_sandboxed_pointer'], prop=PROP, root_name='UNSAFE_sandboxed', tier=tier, pre=PRE_GHOST + FN_GHOST + spec_decls(S), timeout=300, object_bits=12,
+                solvers=('cadical', 'z3') if S == 'VFn' else ('minisat',))   # VFn: minisat does not finish on the function-pointer fields (measured); cadical and z3 do
 
 
 def units(tier):
-    fam = ['VOuter', 'VInner', 'VMisc'] if tier == 'quick' else ['VOuter', 'VInner', 'VMisc', 'VRev']
+    fam = ['VOuter', 'VInner', 'VMisc', 'VFn'] if tier == 'quick' else ['VOuter', 'VInner', 'VMisc', 'VFn', 'VRev']
     insts = []
     for S in fam:
         insts += [store_inst(S, tier), load_inst(S, tier), byvalue_inst(S, tier)]
@@ -216,7 +243,7 @@ def units(tier):
 
 
 ASSUMPTIONS = [
-    'the struct family of /verif/backend/vstructs.hpp stands for "every struct": field kinds {enum, bool, char, unsigned char, short, unsigned short, int, long, unsigned long, long long, float, double, object pointer, long[3], int*[2], nested struct}, one struct also in reversed order; function-pointer fields are not in the family',
+    'the struct family of /verif/backend/vstructs.hpp stands for "every struct": field kinds {enum, bool, char, unsigned char, short, unsigned short, int, long, unsigned long, long long, float, double, object pointer, long[3], int*[2], function pointer, function pointer[2], nested struct}, one struct also in reversed order',
     'pointer fields translate through the no-context backend contracts with the guest image as example (C04)',
     'the guest image is stable during one call; by-value passing through invoke uses the same conversion (C11)',
 ]
